@@ -1,3 +1,4 @@
 import JdProofs.LcsProofs
 import JdProofs.EqualsList
 import JdProofs.NoPanic
+import JdProofs.StrictPatch
